@@ -20,7 +20,9 @@ TRUSTED_BASE = [
 ASSUMPTIONS = ["container nesting of generated values <= max_recursion_depth (deeper data is C18)"]
 TECHNIQUE = "Coq proof by nested induction on JSON values that the evaluator model equals the RFC nodelist semantics for every filter-free query; differential runs of find() against the extracted model"
 LEVEL_TEXT = ("Theorem C01_eval: for every filter-free query and every JSON value whose nesting is within the limit, m_find = Ok (sem q v) "
-              "(same nodes, same order, duplicates kept). The model is tied to the code by differential testing on generated (query, value) pairs.")
+              "(same nodes, same order, duplicates kept). C01_find_text: the same for every TEXT that compiles to a filter-free query, in whatever lexical spelling - find(text, value) is the RFC nodelist of "
+              "the query the typed token grammar derives from the lexer's tokens for that text, and the text is derivable from the RFC 9535 ABNF (C04_sound). "
+              "The model is tied to the code by differential testing on generated (query, value) pairs.")
 LEVEL_NOTE = "Trusted: Coq kernel; Spec/Sem.v as a reading of the RFC; correspondence harness; extraction and driver."
 
 
